@@ -543,7 +543,7 @@ func (f *Footer) StartIterator(startKeyIncl, endKeyExcl []byte,
 		return nil, nil
 	}
 
-	iter, err := ss.StartIterator(startKeyIncl, endKeyExcl, iteratorOptions)
+	iter, err := ss.startIteratorEx(startKeyIncl, endKeyExcl, iteratorOptions, false)
 	if err != nil || iter == nil {
 		f.DecRef()
 		return nil, err
